@@ -446,28 +446,28 @@ def run(tier):
     rich = [h for h in walk_h if hist_has_content(h) >= 2]
     rng.shuffle(rich)
     hid = 0
-    for h in rich[: (300 if quick else 8000)]:
+    for h in rich[: (300 if quick else 3000)]:
         hid += 1
         umc.add_hist(hid, h, "direct")
     richg = [h for h in grow_h if hist_has_content(h) >= 2]
     rng.shuffle(richg)
-    for h in richg[: (16 if quick else 200)]:
+    for h in richg[: (16 if quick else 120)]:
         hid += 1
         umc.add_hist(hid, h, "service")
     urs = []
-    for ui in range(1 if quick else 5):
+    for ui in range(1 if quick else 3):
         txs, gen = random_universe(rng, 4, 14)
         u = Universe("r%d" % ui, txs, gen)
         led = PyLedger(txs, gen)
-        for _ in range(40 if quick else 150):          # random walks, the service's retention
+        for _ in range(40 if quick else 100):          # random walks, the service's retention
             hid += 1
             ops = random_tree(rng, led, rng.randrange(4, 8), 3, 0.5)
             u.add_hist(hid, ops + random_walk(rng, ops, 14, 100), "direct")
-        for _ in range(40 if quick else 150):          # random walks with retention 2, prune at every block
+        for _ in range(40 if quick else 100):          # random walks with retention 2, prune at every block
             hid += 1
             ops = random_tree(rng, led, rng.randrange(5, 9), 3, 0.4)
             u.add_hist(hid, ops + random_walk(rng, ops, 16, 2), "direct2", keep=2)
-        for i in range(8 if quick else 40):            # trees for the real node + service; half with a planned deep reorg
+        for i in range(8 if quick else 24):            # trees for the real node + service; half with a planned deep reorg
             hid += 1
             ops = reorg_tree(rng, led, rng.randrange(3, 6), rng.randrange(2, 4)) if i % 2 == 0 else \
                 random_tree(rng, led, rng.randrange(6, 11), 3, 0.45)
